@@ -1,7 +1,7 @@
 """Process environment for every check: imports tlslite from /repo's working
 tree, installs a deterministic per-endpoint DRBG for os.urandom and a virtual
 clock for time.time.  Must be imported before tlslite / ecdsa."""
-import os, sys, hashlib, time as _time
+import os, sys, hashlib, threading, time as _time
 
 REPO = os.environ.get("VERIF_REPO", "/repo")
 VERIF = os.path.dirname(os.path.dirname(os.path.abspath(__file__)))
@@ -42,6 +42,10 @@ class Ctx(object):
         self.now = 1700000000.0
         self.virtual_time = True
         self.skew = {}            # per-endpoint clock offset (seconds)
+        self.tl = threading.local()   # tl.cur overrides cur inside a thread that runs blocking calls of one endpoint
+
+    def who(self):
+        return getattr(self.tl, "cur", None) or self.cur
 
     def reset(self, case, now=1700000000.0):
         self.case = case
@@ -51,13 +55,14 @@ class Ctx(object):
         self.skew = {}
 
     def urandom(self, n):
-        d = self.drbgs.get(self.cur)
+        cur = self.who()
+        d = self.drbgs.get(cur)
         if d is None:
-            d = self.drbgs[self.cur] = DRBG(SEED, self.case, self.cur)
+            d = self.drbgs[cur] = DRBG(SEED, self.case, cur)
         return d.read(n)
 
     def time(self):
-        return (self.now + self.skew.get(self.cur, 0)) if self.virtual_time else _real_time()
+        return (self.now + self.skew.get(self.who(), 0)) if self.virtual_time else _real_time()
 
 
 CTX = Ctx()
